@@ -3,6 +3,7 @@ package main
 import (
 	"encoding/json"
 	"os"
+	"path/filepath"
 )
 
 func readJSON(path string, v interface{}) error {
@@ -12,3 +13,8 @@ func readJSON(path string, v interface{}) error {
 	}
 	return json.Unmarshal(b, v)
 }
+
+func osMkdirTemp() (string, error)          { return os.MkdirTemp(filepath.Join(Root, "out"), "shared-") }
+func osRemoveAll(d string)                   { os.RemoveAll(d) }
+func osWriteFile(p string, b []byte)         { os.WriteFile(p, b, 0o644) }
+func osReadFile(p string) ([]byte, error)    { return os.ReadFile(p) }
